@@ -299,6 +299,11 @@ def run(prog, rep):
     import_verdicts(prog, rep, "C12", ("CACHE-2",), "CACHE-2",
                     "load(url) returns the document of that url: the cache file is named by a digest of the whole URL, so two resources with the "
                     "same last path component do not serve each other's content")
+    from .rules_lints import no_memo_decorators, no_join_under_lock
+    no_memo_decorators(prog, rep, "MEMO-1", ("odml.terminology", "odml.templates"),
+                       "what they compute depends on the file system and on the tables of loaded documents (a cache directory that was "
+                       "checked once may be gone when the next resource is stored)")
+    no_join_under_lock(prog, rep, "LOCK-1", ("Terminologies", "TemplateHandler"))
     rep.assume("threading.Thread.join returns after the target function returned; dict get/set of single keys are atomic in CPython")
 
 
